@@ -21,6 +21,9 @@ EXPLANATION = (
     'fed only by the task that drains the credited queue, and that queue is filled only inside the credited loop (plus '
     'the single completion marker); the credit frames cannot overtake the request they belong to (shared with C05.a). '
     'Not decided: liveness (every element eventually delivered) and frame counts at a moment in time.')
+EXPLANATION_ADDED = ("(d) credit is really forwarded: REQUEST_N / initial request-n reach the producer's request() and request(n) puts a REQUEST_N frame (handler reactions); (e) the hand-offs of the library's stream source exist and lose nothing (request -> credit queue and feeder, batch -> delivery queue, delivery -> subscriber, completion marker); the awaitable adapter passes limit_rate as initial request-n; subscribers count every element once, compare the count with the limit they were built with and restart it with every batch; REQUEST_N is never held by the lease gate (C14.f) nor inserted at the head (C05.b).")
+EXPLANATION = EXPLANATION.replace(' Not decided', ' ' + EXPLANATION_ADDED + ' Not decided', 1) \
+    if ' Not decided' in EXPLANATION else EXPLANATION + ' ' + EXPLANATION_ADDED
 ASSUMPTIONS = COMMON_ASSUMPTIONS
 
 
